@@ -622,7 +622,7 @@ def run_extra(**kw):
         return res
     try:
         if tier == "quick":
-            info, classes, ev = self_proof(kw, sessions=16, job_counts=[kw["jobs"], 2])
+            info, classes, ev = self_proof(kw, sessions=16, job_counts=[kw["jobs"], 3])
             res["engines"]["self_proof"] = info
             res["classes"] += classes
             res["evaluations"] += ev
@@ -631,8 +631,8 @@ def run_extra(**kw):
                                                   "sessions and the first ordinary sessions, each in a cfg'd-out module")
             res["classes"] += classes
             res["evaluations"] += ev
-            info, classes, ev = engine_r_t(kw, n_inputs=0, chunks=max(16, kw["jobs"]), pool_stride=3)
-            res["engines"]["R-T"] = dict(info, what="corpus and one third of the directed seeds, rotating with the seed "
+            info, classes, ev = engine_r_t(kw, n_inputs=0, chunks=max(96, 6 * kw["jobs"]), pool_stride=5)
+            res["engines"]["R-T"] = dict(info, what="corpus and one fifth of the directed seeds, rotating with the seed "
                                                     "(all of them plus generated inputs in the thorough tier): "
                                                     "shipped dylib (guard off), real proc_macro bridge, real wrappers, stable "
                                                     "rustc --emit=metadata; verdict only on macro panics and message-less "
@@ -651,7 +651,7 @@ def run_extra(**kw):
                                                   "sessions and the first ordinary sessions, each in a cfg'd-out module")
             res["classes"] += classes
             res["evaluations"] += ev
-            info, classes, ev = engine_r_t(kw, n_inputs=16000, chunks=max(16, kw["jobs"]))
+            info, classes, ev = engine_r_t(kw, n_inputs=16000, chunks=max(384, 24 * kw["jobs"]))
             res["engines"]["R-T"] = dict(info, what="shipped dylib (guard off), real proc_macro bridge, real wrappers, "
                                                     "stable rustc --emit=metadata; verdict only on macro panics and "
                                                     "message-less compile_error!; nothing stubbed")
